@@ -59,6 +59,12 @@ def configs(t):
                                                   prog('b', 1, load=30), prog('c', 2, load=30)],
                                          distribution=dist, identifiers='10.0.0.1:25001,10.0.0.2:25002')],
                         triggers=[start(0, 'LESS_LOADED', 'A')]))
+    # SINGLE_NODE with two instances of the chosen node: a program disabled on / unknown to one of them only
+    for st in ('CONFIG', 'LESS_LOADED'):
+        out.append(base(f'SINGLE_NODE-disabled-on-one-{st}',
+                        [app('A', 0, [prog('a', 1, load=30), prog('b', 1, load=30), prog('c', 2, load=30)],
+                             distribution='SINGLE_NODE', identifiers='*')],
+                        disabled={'0': ['A:b']}, lack={'1': ['A:c']}, triggers=[start(2, st, 'A')]))
     # two applications started concurrently, in either order, second before / between / after the acknowledgements
     two = [app('A', 0, [prog('a', 1, load=40), prog('b', 2, load=40)]),
            app('B', 0, [prog('d', 1, load=40), prog('e', 2, load=40)])]
